@@ -52,22 +52,43 @@ inductive Atom
   | free (key : Str)                                -- a placeholder with the default `[^/]*`
   deriving Repr, DecidableEq
 
-/-- atoms of a template, split into segments at every literal '/'; `none` when a placeholder
-    expression is neither `[^/]*` nor an alternation of literal / digit words -/
-def atomsGo : Template → List Atom → List (List Atom) → Option (List (List Atom))
-  | [], cur, acc => some (acc ++ [cur])
-  | .lit s :: rest, cur, acc =>
-    -- walk the literal: '/' closes the current segment
-    let (cur', acc') := s.foldl (fun (st : List Atom × List (List Atom)) ch =>
-      if ch == '/' then ([], st.2 ++ [st.1]) else (st.1 ++ [Atom.cls (Template.litCls ch)], st.2)) (cur, acc)
-    atomsGo rest cur' acc'
-  | .ph k e :: rest, cur, acc =>
-    if e == Re.star Cls.notSlash then atomsGo rest (cur ++ [Atom.free k]) acc
-    else match altsOf? e with
-      | some alts => atomsGo rest (cur ++ [Atom.closed k alts]) acc
+/-- CHANGED (restructured, same meaning): all atoms of a template in order; a literal '/' is the
+    atom `cls (lit '/')`.  `none` when a placeholder expression is neither `[^/]*` nor an
+    alternation of literal / digit words.  (The original `atomsGo` walked the template with two
+    accumulators and a `foldl`; this is the same list, produced by structural recursion, and
+    `segsOf` below cuts it at the '/' atoms.) -/
+def flatAtoms : Template → Option (List Atom)
+  | [] => some []
+  | .lit s :: rest =>
+    match flatAtoms rest with
+    | some as => some (s.map (fun ch => Atom.cls (Template.litCls ch)) ++ as)
+    | none => none
+  | .ph k e :: rest =>
+    if e == Re.star Cls.notSlash then
+      match flatAtoms rest with
+      | some as => some (Atom.free k :: as)
       | none => none
+    else match altsOf? e, flatAtoms rest with
+      | some alts, some as => some (Atom.closed k alts :: as)
+      | _, _ => none
 
-def atomsOf (t : Template) : Option (List (List Atom)) := atomsGo t [] []
+/-- the atom of a literal '/' -/
+def Atom.isSlash : Atom → Bool
+  | .cls (.lit c) => c == '/'
+  | _ => false
+
+/-- cut a list of atoms at every '/' atom: the first segment and the remaining ones -/
+def splitSegs : List Atom → List Atom × List (List Atom)
+  | [] => ([], [])
+  | a :: as =>
+    if a.isSlash then ([], (splitSegs as).1 :: (splitSegs as).2)
+    else (a :: (splitSegs as).1, (splitSegs as).2)
+
+/-- the '/'-free stretches of a list of atoms (always at least one) -/
+def segsOf (fl : List Atom) : List (List Atom) := (splitSegs fl).1 :: (splitSegs fl).2
+
+/-- atoms of a template, split into segments at every literal '/' -/
+def atomsOf (t : Template) : Option (List (List Atom)) := (flatAtoms t).map segsOf
 
 def Atom.isFree : Atom → Bool
   | .free _ => true
@@ -85,20 +106,39 @@ def rightOk (e : Env) : Atom → Bool
 
 /-- a segment parses deterministically: at most one free placeholder; everything to its left has
     a prefix-free language, everything to its right a suffix-free one (without a free placeholder:
-    some split point works) -/
-def segDet (e : Env) (seg : List Atom) : Bool :=
-  match seg.findIdx? Atom.isFree with
-  | some i => (seg.take i).all (leftOk e) && (seg.drop (i + 1)).all (rightOk e)
-  | none => (List.range (seg.length + 1)).any (fun i => (seg.take i).all (leftOk e) && (seg.drop i).all (rightOk e))
+    some split point works).
+    CHANGED (restructured, same meaning): structural recursion instead of `findIdx?` / `range`:
+    the segment is `L ++ [free] ++ R` or `L ++ R` with `L` left-ok and `R` right-ok. -/
+def segDet (e : Env) : List Atom → Bool
+  | [] => true
+  | a :: as =>
+    (leftOk e a && segDet e as) || (a.isFree && as.all (rightOk e)) || (a :: as).all (rightOk e)
 
-/-- a path template follows the conventions -/
+/-- per-atom conventions.
+    CHANGED (added): the classes of a closed vocabulary accept neither '/' nor a newline, literal
+    template text contains no newline.  Without '/'-freeness `c05_own_parse` is false
+    (`{x:(a|a/b)}/{z:(b/c|c)}` renders x=a/b, z=c as `a/b/c` and reads back x=a, z=b/c); without
+    newline-freeness `c06_no_clash` is false (`{x:(a\n|a)}/{x:(a|a\n)}` renders x=a\n as
+    `a\n/a\n`, and `$` lets the second group capture `a`: duplicate clash). -/
+def atomOk (e : Env) : Atom → Bool
+  | .cls k => k.nlFree e
+  | .closed _ alts => !alts.isEmpty &&
+      alts.all (fun w => !w.isEmpty && w.all (fun k => k.slashFree e && k.nlFree e))
+  | .free _ => true
+
+/-- CHANGED (added): the key of a placeholder occurs fewer than 1000 times in the template `T`
+    (resolva numbers repeated groups with `%03d` and strips exactly three characters) -/
+def keyCountOk (T : Template) : Tok → Bool
+  | .ph k _ => decide (Template.countKey k T < 1000)
+  | .lit _ => true
+
+/-- a path template follows the conventions.
+    CHANGED (added): `atomOk` and `keyCountOk` (above). -/
 def pathTplOk (e : Env) (t : Template) : Bool :=
-  match atomsOf t with
+  match flatAtoms t with
   | none => false
-  | some segs => segs.all (segDet e) &&
-      segs.all (fun seg => seg.all (fun a => match a with
-        | .closed _ alts => !alts.isEmpty && alts.all (fun w => !w.isEmpty)
-        | _ => true))
+  | some fl => (segsOf fl).all (segDet e) && fl.all (atomOk e) &&
+      t.all (keyCountOk t)
 
 /-- the values handed to a template are ones it can render and read back: closed placeholders get
     a word of their vocabulary, free ones a '/'-free string -/
@@ -115,16 +155,22 @@ def distinctStr : List Str → Bool
   | k :: ks => !ks.contains k && distinctStr ks
 
 /-- the value mapping of a key is one-to-one in both directions and no sid-side value is itself a
-    word the path expression of that key accepts ("idempotent") -/
+    word the path expression of that key accepts ("idempotent").
+    CHANGED (added): sid-side values are non-empty (an empty sid value is not mapped back by
+    `dict_to_path`, so the path would be re-rendered with an empty field: `c06_total` is false
+    then, see the counterexample in `Spil/Props/C05b.lean`). -/
 def mappingOk (e : Env) (pc : PathConf) : Bool :=
   pc.mapping.all (fun km =>
     distinctStr (km.2.map (·.1)) && distinctStr (km.2.map (·.2)) &&
+    km.2.all (fun pv => !pv.2.isEmpty) &&
     pc.templates.all (fun lt => lt.2.all (fun tok => match tok with
       | .ph k ex => k != km.1 || km.2.all (fun pv => !(ex.accepts e pv.2))
       | _ => true)))
 
-/-- a path configuration follows the conventions -/
+/-- a path configuration follows the conventions.
+    CHANGED (added): template labels are unique (they are the keys of a Python dict). -/
 def pathConfOk (e : Env) (pc : PathConf) : Bool :=
+  distinctStr (pc.templates.map (·.1)) &&
   pc.templates.all (fun lt => pathTplOk e lt.2) && mappingOk e pc &&
   -- defaults only concern closed keys (an empty value never comes out of a closed placeholder)
   -- and are words of the vocabulary of that key
